@@ -169,9 +169,7 @@ func (p *BodyProperty) decode(data []byte) {
 	p.bit14 = byte((attribute >> 14) & 0b1) // 第14位 协议版本 0-2013 1-2019
 	p.Version = p.bit14
 	p.PacketFragmented = byte((attribute >> 13) & 0b1) // 第13位 分包
-	if p.PacketFragmented == 1 {
-		p.isSubPackage = true
-	}
+	p.isSubPackage = p.PacketFragmented == 1 // 每次都重新赋值 复用同一个对象解析时不能沿用上一次的分包标记
 	p.EncryptMethod = uint8((attribute & 0x400) >> 10) // 第10-12位 加密方式 0-不加密 1-RSA
 	p.BodyDayaLen = attribute & 0x3FF                  // 最低10位 消息体长度 3=011 F=1111
 }
